@@ -15,7 +15,8 @@ META = dict(
          "TLC checks on every recorded real state: lookup total = sum of locker balances (and the id list), locker custody >= totals, withdraw / "
          "close pay exactly the requested amount / full net balance, net fees >= 0, and in step form that the recorded net fees of every asset "
          "move exactly with the collector's custody of that asset (inflows: draw-down / closing fee, interest, liquidation penalty, debt "
-         "cover; outflows: savings, auction lots, surplus fund). Saving-rate rewards and interest are the code's float amounts taken from the log. "
+         "cover; outflows: savings, auction lots, surplus fund; lots returned by an emergency-shutdown close), also for governance saving-rate "
+         "changes (settlement of every locker of the app) and for locker messages whose app / asset / locker id do not belong together. Saving-rate rewards and interest are the code's float amounts taken from the log. "
          "Exhaustive for the bounded models, sampled beyond them.",
     note="Trusted: TLC/Json module, projection functions, bank/store semantics. Rewards / interest (math.Pow) are environment amounts constrained by "
          "the laws, not recomputed. Generation-1 hook called directly. Net fees are seeded at the root of auction behaviours through the collector "
